@@ -26,6 +26,12 @@ Round 2: markup histories that share a `cache` dict (clause markup-shared-cache)
 *nested* snippet resolution (clause raise-inside-resolution, complete over the alias chains of the built-in html table);
 every expand call of a history runs under a CPU-time alarm and a memory cap (see `_outcome`, `_limit_memory`).
 
+Round 3: the option dimension of the quantifier ("with differing options"): clause markup-option-switch (the same element names
+under configurations that differ in `inlineElements` / any other markup option / context / syntax) and clause snippet-value-units
+(user stylesheet snippets whose default values carry units, under differing `unitAliases` / unit options, through one cache). Pools
+and generators: c08_opts.py. Their > 1 400 distinct probes get their reference from `reference_batch` (one process per probe, forked
+from an interpreter that has only imported the library) instead of one `python` start each.
+
 A step is a JSON dict {'abbr', 'cfg' (plain config dict without cache), 'how': 'fresh' | 'dict' | 'Config',
 'obj': id of the shared caller object (for how != 'fresh'), 'cache': id of a shared cache dict or None}.
 
@@ -40,6 +46,7 @@ import subprocess
 import sys
 
 from .common import Clause, run_parallel, REPO
+from . import c08_opts
 
 CHECK_CACHE_ACROSS_SNIPPET_TABLES = False
 
@@ -227,6 +234,58 @@ def reference(abbr, cfg):
             raise RuntimeError('reference interpreter failed for %s: %s' % (k, p.stderr[-400:]))
         _REF[k] = json.loads(p.stdout)
     return _REF[k]
+
+
+_REF_BATCH_SCRIPT = r'''
+import sys, json, os
+sys.path.insert(0, sys.argv[1])
+probes = json.loads(sys.stdin.read())
+from emmet import expand          # the only library code this process ever runs itself
+out = []
+for abbr, cfg in probes:
+    r, w = os.pipe()
+    pid = os.fork()
+    if pid == 0:
+        # child: a copy of an interpreter that has imported the library and made no call
+        code = 1
+        try:
+            os.close(r)
+            try:
+                res = ['ok', expand(abbr, cfg)]
+            except Exception as e:
+                res = ['err', type(e).__name__, getattr(e, 'pos', None)]
+            with os.fdopen(w, 'w') as f:
+                f.write(json.dumps(res))
+            code = 0
+        finally:
+            os._exit(code)
+    os.close(w)
+    with os.fdopen(r) as f:
+        data = f.read()
+    _, status = os.waitpid(pid, 0)
+    out.append(json.loads(data) if data and status == 0 else None)
+sys.stdout.write(json.dumps(out))
+'''
+
+
+def reference_batch(probes):
+    """fill _REF for a list of (abbr, cfg): one helper interpreter imports the library (exactly what the script of
+    `reference()` does before its call) and then forks one child per probe; the child makes the probe call as the first
+    and only expand call of its process and exits.  The state in which the call is made is that of a fresh interpreter
+    after `from emmet import expand`; nothing a probe does can reach another probe.  About 100x cheaper than one
+    `python` start per probe, which is what makes option / snippet pools with > 1 000 distinct probes affordable.  A probe
+    whose child did not deliver falls back to `reference()`."""
+    todo = [(a, c) for a, c in probes if json.dumps([a, c], sort_keys=True) not in _REF]
+    if not todo:
+        return
+    p = subprocess.run([sys.executable, '-c', _REF_BATCH_SCRIPT, REPO], input=json.dumps(todo), capture_output=True, text=True,
+                       timeout=600)
+    res = json.loads(p.stdout) if p.returncode == 0 and p.stdout else [None] * len(todo)
+    for (a, c), r in zip(todo, res):
+        if r is None:
+            reference(a, c)
+        else:
+            _REF[json.dumps([a, c], sort_keys=True)] = r
 
 
 def _describe(s):
@@ -538,8 +597,9 @@ def gen_retention(seed, n_random):
         yield steps + [probe], 2
 
 
-def _precompute(cases_lists):
-    """fill _REF in the parent (one fresh interpreter per distinct probe, run concurrently) so that forked workers inherit it"""
+def _precompute(cases_lists, forked=False):
+    """fill _REF in the parent (one fresh interpreter per distinct probe, run concurrently; forked=True: `reference_batch`) so
+    that forked workers inherit it"""
     from concurrent.futures import ThreadPoolExecutor
     probes = {}
     for cases in cases_lists:
@@ -547,7 +607,10 @@ def _precompute(cases_lists):
             probes[json.dumps([probe['abbr'], probe['cfg']], sort_keys=True)] = (probe['abbr'], probe['cfg'])
     todo = [v for k, v in sorted(probes.items()) if k not in _REF]
     with ThreadPoolExecutor(14) as ex:
-        list(ex.map(lambda ac: reference(ac[0], ac[1]), todo))
+        if forked:
+            list(ex.map(reference_batch, [todo[i::14] for i in range(14)]))
+        else:
+            list(ex.map(lambda ac: reference(ac[0], ac[1]), todo))
     return len(probes)
 
 
@@ -597,7 +660,32 @@ def run(tier, seed):
                '%d histories of 2..4 calls + probe' % len(g_rnd), rule_h, exhaustive=False)
     run_parallel(c, 'bounded.c08', 'check_history', g_rnd, chunk=100)
     out.append(c.done())
-    del g_cache, g_obj, g_ind, g_rnd, g_mkc, g_nest
+    # round 3: the option dimension (pools and generators in c08_opts.py)
+    g_opt = list(c08_opts.gen_option_switch(seed, 3000 if quick else 40000))
+    g_unit = list(c08_opts.gen_snippet_units(seed, 300 if quick else 6000))
+    n_probes3 = _precompute([g_opt, g_unit], forked=True)
+    rule_3 = ('a case is one history plus one probe call; the probe outcome is compared with the same call (equal, freshly built '
+              'configuration, no cache) made as the first expand call of a process forked from an interpreter that has only imported '
+              'the library (%d distinct probes, one process each); distinct by the JSON of history + probe' % n_probes3)
+    c = Clause('markup-option-switch', 'B', 'the same markup abbreviation under configuration A and then B: every ordered pair of %d configurations '
+               '(every markup-related option with a non-default value, 12 with an `inlineElements` list of their own, context elements, 7 syntaxes) x %d abbreviations '
+               '(unnamed elements below built-in / inline / custom / upper-case / unnamed parents, groups, repeaters, plus option-sensitive named '
+               'elements) with nothing shared; for every fourth abbreviation also A through a caller-owned Config / dict, B with a fresh dict, then the '
+               'probe through the object again; + seeded histories of 2..3 calls over different abbreviations'
+               % (len(c08_opts.MKO_CFGS), len(c08_opts.MKO_ABBRS)),
+               'histories of 1..3 calls + probe over the fixed pools: %d' % len(g_opt), rule_3, exhaustive=False)
+    run_parallel(c, 'bounded.c08', 'check_history', g_opt, chunk=400)
+    out.append(c.done())
+    c = Clause('snippet-value-units', 'B', 'stylesheet calls through one cache dict with one user snippet table (%d snippets whose default values have numbers '
+               'with real units, with alias-key units, without unit, keywords, colours, strings, functions, fields, alternatives; a second table with the '
+               'same names) under %d option sets (10 `unitAliases` tables incl. chains and swaps, intUnit / floatUnit / unitless / shortHex / json / keywords): two '
+               'callers with differing options (all ordered pairs x 4 combined abbreviations that cover every snippet; every bare name for B = A + 1, + 4, + 7, its explicit-value form for A + 1 / A + 5), the '
+               'same call repeated through fresh dicts / one dict / one Config, A-B-A, + seeded histories'
+               % (len(c08_opts.SNU), len(c08_opts.SNU_OPTS)),
+               'histories of 1..3 calls + probe over the fixed pools: %d' % len(g_unit), rule_3, exhaustive=False)
+    run_parallel(c, 'bounded.c08', 'check_history', g_unit, chunk=40)
+    out.append(c.done())
+    del g_cache, g_obj, g_ind, g_rnd, g_mkc, g_nest, g_opt, g_unit
     g_ret = list(gen_retention(seed, 300 if quick else 5000))
     c = Clause('no-retention', 'B', 'every pool (abbreviation, configuration) pair as fresh dict and as shared Config, plus seeded random histories; '
                'warm-up twice, snapshot, repeat 2-3 times, snapshot', '%d call sequences' % len(g_ret),
